@@ -1,5 +1,6 @@
 //! pcmon: runtime monitors for ark-poly-commit (see /verif/DESIGN.md).
 #![allow(clippy::too_many_arguments, clippy::type_complexity)]
+#![allow(unused_imports, dead_code)]
 
 mod ipa_ref;
 mod ju;
